@@ -5,7 +5,7 @@
 use crate::menu::{dat_bytes, lab, lab_text};
 use crate::model::{fixed_tree, hist_text, put_var, Expect, Model, Op};
 use crate::probes;
-use crate::real::{apply_real, guarded, kids_of, Ret, G};
+use crate::real::{apply_real, guarded, kids_of, Ret};
 use rustc_hash::FxHashSet;
 use sodg::verif::Snapshot;
 use sodg::{Label, Sodg};
@@ -48,6 +48,7 @@ pub struct HxCfg {
     pub seeds: Vec<(String, Vec<Op>)>,
     pub track_returned: bool,
     pub threads: usize,
+    pub shared: std::sync::Arc<probes::Shared>,
 }
 
 impl HxCfg {
@@ -71,7 +72,8 @@ impl HxCfg {
             probes: Probes::default(),
             seeds: vec![],
             track_returned: false,
-            threads: std::thread::available_parallelism().map_or(8, |x| x.get()),
+            threads: crate::inflight::worker_threads(),
+            shared: std::sync::Arc::default(),
         }
     }
 
@@ -175,11 +177,13 @@ pub struct Finding {
     pub kind: String,
     pub tags: Vec<&'static str>,
     pub detail: String,
+    /// a second history the finding refers to (differential oracles)
+    pub aux: Option<Vec<Op>>,
 }
 
 impl Finding {
     pub fn new(kind: &str, tags: &[&'static str], detail: String) -> Self {
-        Self { kind: kind.to_string(), tags: tags.to_vec(), detail }
+        Self { kind: kind.to_string(), tags: tags.to_vec(), detail, aux: None }
     }
 }
 
@@ -194,6 +198,7 @@ pub struct Violation {
     pub history: Vec<Op>,
     /// "transition" (the last op of the history is the failing call) or "probe"
     pub at: String,
+    pub aux: Option<Vec<Op>>,
 }
 
 #[derive(Clone, Debug, Default)]
@@ -214,6 +219,7 @@ pub struct HxResult {
     pub probe_runs: u64,
     pub wall_s: f64,
     pub widest_level: usize,
+    pub machinery: Vec<String>,
 }
 
 pub fn encode_snapshot(s: &Snapshot, out: &mut Vec<u8>) {
@@ -286,21 +292,15 @@ pub fn state_key<const N: usize>(g: &Sodg<N>, m: &Model) -> Box<[u8]> {
     out.into_boxed_slice()
 }
 
-struct St<const N: usize> {
-    g: G<N>,
-    m: Model,
-}
-
-struct Cand<const N: usize> {
+struct Cand {
     key: Box<[u8]>,
     parent: u32,
     op: Op,
-    st: St<N>,
 }
 
 #[derive(Default)]
-struct WorkerOut<const N: usize> {
-    cands: Vec<Cand<N>>,
+struct WorkerOut {
+    cands: Vec<Cand>,
     transitions: u64,
     probe_runs: u64,
     counters: BTreeMap<&'static str, u64>,
@@ -485,7 +485,7 @@ pub fn check_transition<const N: usize>(
             Op::ReloadSwap => vec!["C08", "C07"],
             Op::Merge(..) => vec!["C11", "C07"],
         };
-        out.push(Finding { kind: format!("panic-{}", op_name(op)), tags, detail: format!("{} is within the limits but panicked: {e}", op.text()) });
+        out.push(Finding { kind: format!("panic-{}", op_name(op)), tags, detail: format!("{} is within the limits but panicked: {e}", op.text()), aux: None });
         return out;
     }
     // 2. model-side complaints (next_id freshness, merge structure)
@@ -501,7 +501,7 @@ pub fn check_transition<const N: usize>(
             }
             _ => vec!["C02"],
         };
-        out.push(Finding { kind: format!("{}-contract", op_name(op)), tags, detail: e.clone() });
+        out.push(Finding { kind: format!("{}-contract", op_name(op)), tags, detail: e.clone(), aux: None });
     }
     if let Ok(Ret::Merge(Err(e))) = res {
         out.push(Finding::new("merge-err", &["C11"], format!("merge of a tree into a tree returned Err: {e}")));
@@ -531,20 +531,20 @@ pub fn check_transition<const N: usize>(
                         (None, Op::Add(_)) => vec!["C01", "C02", "C04"],
                         _ => vec!["C01", "C02"],
                     };
-                    out.push(Finding { kind: format!("early-collection-by-{}", op_name(op)), tags, detail: format!("{} removed {lost:?}: {why}; {detail}", op.text()) });
+                    out.push(Finding { kind: format!("early-collection-by-{}", op_name(op)), tags, detail: format!("{} removed {lost:?}: {why}; {detail}", op.text()), aux: None });
                 } else if !stuck.is_empty() {
                     let tags: Vec<&'static str> = match swap {
                         Some(t) => vec![t],
                         None => vec!["C02"],
                     };
-                    out.push(Finding { kind: "late-collection".to_string(), tags, detail: format!("{} should have removed {stuck:?} (the last unread datum of their group was just read) but they are still present; {detail}", op.text()) });
+                    out.push(Finding { kind: "late-collection".to_string(), tags, detail: format!("{} should have removed {stuck:?} (the last unread datum of their group was just read) but they are still present; {detail}", op.text()), aux: None });
                 } else {
                     let tags: Vec<&'static str> = match (swap, op) {
                         (Some(t), _) => vec![t],
                         (None, Op::Add(_) | Op::AddNext) => vec!["C04", "C02"],
                         _ => vec!["C02"],
                     };
-                    out.push(Finding { kind: format!("alive-mismatch-after-{}", op_name(op)), tags, detail: format!("after {}: {detail}", op.text()) });
+                    out.push(Finding { kind: format!("alive-mismatch-after-{}", op_name(op)), tags, detail: format!("after {}: {detail}", op.text()), aux: None });
                 }
             }
             "edge-mismatch" => {
@@ -553,10 +553,10 @@ pub fn check_transition<const N: usize>(
                     (None, Op::Add(_) | Op::AddNext) => vec!["C03", "C04"],
                     _ => vec!["C03"],
                 };
-                out.push(Finding { kind: format!("edge-mismatch-after-{}", op_name(op)), tags, detail: format!("after {}: {detail}", op.text()) });
+                out.push(Finding { kind: format!("edge-mismatch-after-{}", op_name(op)), tags, detail: format!("after {}: {detail}", op.text()), aux: None });
             }
             _ => {
-                out.push(Finding { kind, tags: vec!["C02", "C07"], detail: format!("after {}: {detail}", op.text()) });
+                out.push(Finding { kind, tags: vec!["C02", "C07"], detail: format!("after {}: {detail}", op.text()), aux: None });
             }
         }
     }
@@ -650,6 +650,69 @@ pub fn op_name(op: &Op) -> &'static str {
         Op::ReloadSwap => "reload",
         Op::Merge(..) => "merge",
     }
+}
+
+/// One step of implementation and model together, without judging it (used
+/// to re-materialise a state whose transitions were judged when discovered).
+pub fn step_nocheck<const N: usize>(g: &mut Sodg<N>, m: &mut Model, op: &Op) -> Result<(), String> {
+    let res = apply_real(g, op)?;
+    let mut errs = vec![];
+    match (op, &res) {
+        (Op::NextId, Ret::Id(id)) => m.adopt_next(*id, false, &mut errs),
+        (Op::AddNext, Ret::Id(id)) => m.adopt_next(*id, true, &mut errs),
+        (Op::Merge(k, left), Ret::Merge(Ok(()))) => {
+            let gr: &Sodg<N> = g;
+            let _ = m.apply_merge(&fixed_tree(*k), *left, &|gl, a| guarded(|| gr.kid(gl, lab(a))).ok().flatten(), &mut errs);
+        }
+        (Op::NextId | Op::AddNext | Op::Merge(..), _) => return Err(format!("{} did not return what it returned before", op.text())),
+        _ => {
+            m.apply(op);
+        }
+    }
+    Ok(())
+}
+
+/// Per-worker cache of the last materialised parent state.
+struct Cache<const N: usize> {
+    at: Option<(usize, u32)>,
+    g: Option<Sodg<N>>,
+    m: Model,
+}
+
+fn replay_both<const N: usize>(cfg: &HxCfg, hist: &[Op]) -> Result<(Sodg<N>, Model), String> {
+    let mut g: Sodg<N> = Sodg::empty(cfg.cap);
+    let mut m = Model::new(cfg.cap, cfg.n, cfg.track_returned);
+    for op in hist {
+        step_nocheck(&mut g, &mut m, op)?;
+    }
+    Ok((g, m))
+}
+
+/// Rebuild the state (level, idx) from the trail: the parent is replayed from
+/// `Sodg::empty()` (or taken from the cache), then the last op is applied.
+fn materialize<const N: usize>(
+    cfg: &HxCfg,
+    roots: &[Vec<Op>],
+    trail: &[Vec<(u32, Op)>],
+    level: usize,
+    idx: u32,
+    cache: &mut Cache<N>,
+) -> Result<(Sodg<N>, Model), String> {
+    if level == 0 {
+        return replay_both(cfg, &roots[idx as usize]);
+    }
+    let (p, op) = trail[level][idx as usize];
+    if cache.at != Some((level - 1, p)) || cache.g.is_none() {
+        let h = history_of(roots, trail, level - 1, p);
+        let (g, m) = replay_both::<N>(cfg, &h)?;
+        cache.at = Some((level - 1, p));
+        cache.g = Some(g);
+        cache.m = m;
+    }
+    let mut g = guarded(|| cache.g.as_ref().unwrap().clone())?;
+    let mut m = cache.m.clone();
+    step_nocheck(&mut g, &mut m, &op)?;
+    Ok((g, m))
 }
 
 /// Apply `op` to (g, m): the single place where model and implementation
@@ -822,12 +885,13 @@ fn history_of(roots: &[Vec<Op>], trail: &[Vec<(u32, Op)>], level: usize, idx: u3
 #[allow(clippy::too_many_lines)]
 fn run_n<const N: usize>(cfg: &HxCfg) -> HxResult {
     let t0 = Instant::now();
+    crate::inflight::start_watchdog();
     let ops = cfg.ops();
     let mut res = HxResult { cfg: cfg.describe(), ..Default::default() };
     let mut seen: FxHashSet<Box<[u8]>> = FxHashSet::default();
     let mut roots: Vec<Vec<Op>> = vec![];
-    let mut frontier: Vec<St<N>> = vec![];
     let mut trail: Vec<Vec<(u32, Op)>> = vec![vec![]];
+    let mut machinery: Vec<String> = vec![];
     // initial states: the empty graph and the seeds (built through the public API)
     let mut inits: Vec<(String, Vec<Op>)> = vec![("empty".to_string(), vec![])];
     inits.extend(cfg.seeds.iter().cloned());
@@ -855,15 +919,14 @@ fn run_n<const N: usize>(cfg: &HxCfg) -> HxResult {
         if seen.insert(key) {
             trail[0].push((0, Op::NextId)); // placeholder: level 0 histories live in `roots`
             roots.push(hist.clone());
-            frontier.push(St { g: G(g), m });
         }
     }
-    res.states = frontier.len() as u64;
+    res.states = trail[0].len() as u64;
     let mut depth = 0usize;
-    let mut probe_only_done = false;
     loop {
         let expand = depth < cfg.max_depth;
-        if frontier.is_empty() {
+        let width = trail[depth].len();
+        if width == 0 {
             res.closed = true;
             break;
         }
@@ -875,45 +938,53 @@ fn run_n<const N: usize>(cfg: &HxCfg) -> HxResult {
             res.cap_hit = Some(format!("state cap {} reached before level {} was expanded", cfg.max_states, depth));
             break;
         }
-        res.widest_level = res.widest_level.max(frontier.len());
+        res.widest_level = res.widest_level.max(width);
         // expand the frontier in parallel, chunk by chunk, deterministically merged
         let nthreads = cfg.threads.max(1);
-        let chunk = frontier.len().div_ceil(nthreads * 4).max(1);
-        let chunks: Vec<(usize, &[St<N>])> = frontier.chunks(chunk).enumerate().collect();
+        let chunk = width.div_ceil(nthreads * 8).max(1);
+        let nchunks = width.div_ceil(chunk);
         let next_chunk = std::sync::atomic::AtomicUsize::new(0);
         let stop = std::sync::atomic::AtomicBool::new(false);
         let deadline = t0 + cfg.wall;
-        let outs: Vec<std::sync::Mutex<Option<WorkerOut<N>>>> = (0..chunks.len()).map(|_| std::sync::Mutex::new(None)).collect();
+        let outs: Vec<std::sync::Mutex<Option<WorkerOut>>> = (0..nchunks).map(|_| std::sync::Mutex::new(None)).collect();
         let seen_ref = &seen;
         let ops_ref = &ops;
-        let hist_ctx = (&roots, &trail, depth);
+        let roots_ref = &roots;
+        let trail_ref = &trail;
+        let errors: std::sync::Mutex<Vec<String>> = std::sync::Mutex::new(vec![]);
         std::thread::scope(|s| {
-            for _ in 0..nthreads.min(chunks.len()) {
+            for _ in 0..nthreads.min(nchunks) {
                 s.spawn(|| {
                     crate::real::install_panic_hook();
+                    let mut cache: Cache<N> = Cache { at: None, g: None, m: Model::default() };
                     loop {
                         let ci = next_chunk.fetch_add(1, std::sync::atomic::Ordering::Relaxed);
-                        if ci >= chunks.len() {
+                        if ci >= nchunks {
                             break;
                         }
-                        let (_, states) = chunks[ci];
-                        let mut out = WorkerOut::<N>::default();
-                        for (off, st) in states.iter().enumerate() {
-                            if off % 64 == 0 && (stop.load(std::sync::atomic::Ordering::Relaxed) || Instant::now() > deadline) {
+                        let mut out = WorkerOut::default();
+                        let lo = ci * chunk;
+                        let hi = (lo + chunk).min(width);
+                        for i in lo..hi {
+                            if (i - lo) % 64 == 0 && (stop.load(std::sync::atomic::Ordering::Relaxed) || Instant::now() > deadline) {
                                 stop.store(true, std::sync::atomic::Ordering::Relaxed);
                                 break;
                             }
-                            let idx = (ci * chunk + off) as u32;
-                            expand_state(cfg, ops_ref, seen_ref, st, idx, expand, hist_ctx, &mut out);
+                            let idx = i as u32;
+                            match materialize::<N>(cfg, roots_ref, trail_ref, depth, idx, &mut cache) {
+                                Ok((g0, m0)) => expand_state(cfg, ops_ref, seen_ref, &g0, &m0, idx, expand, (roots_ref, trail_ref, depth), &mut out),
+                                Err(e) => errors.lock().unwrap().push(format!("state {} of level {depth} could not be re-materialised: {e}", hist_text(&history_of(roots_ref, trail_ref, depth, idx)))),
+                            }
                         }
                         *outs[ci].lock().unwrap() = Some(out);
                     }
+                    crate::inflight::idle();
                 });
             }
         });
+        machinery.extend(errors.into_inner().unwrap().into_iter().take(3));
         let aborted = stop.load(std::sync::atomic::Ordering::Relaxed);
         // sequential, ordered merge
-        let mut next: Vec<St<N>> = vec![];
         let mut next_trail: Vec<(u32, Op)> = vec![];
         for o in outs {
             let Some(o) = o.into_inner().unwrap() else { continue };
@@ -932,7 +1003,6 @@ fn run_n<const N: usize>(cfg: &HxCfg) -> HxResult {
             for c in o.cands {
                 if seen.insert(c.key) {
                     next_trail.push((c.parent, c.op));
-                    next.push(c.st);
                 }
             }
         }
@@ -940,28 +1010,28 @@ fn run_n<const N: usize>(cfg: &HxCfg) -> HxResult {
             res.cap_hit = Some(format!("wall-clock cap {:?} reached while level {} was being expanded (that level is not counted as completed)", cfg.wall, depth));
             break;
         }
+        if !machinery.is_empty() {
+            break;
+        }
         if !expand {
-            probe_only_done = true;
             break;
         }
         res.depth_completed = depth + 1;
-        res.states += next.len() as u64;
+        res.states += next_trail.len() as u64;
+        let grew = !next_trail.is_empty();
+        trail.push(next_trail);
         // samples: the first history of the first levels, the deepest at the end
-        if !next.is_empty() && res.samples.len() < 6 {
-            trail.push(next_trail);
+        if grew && res.samples.len() < 6 {
             let h = history_of(&roots, &trail, depth + 1, 0);
             res.samples.push(hist_text(&h));
-        } else {
-            trail.push(next_trail);
         }
-        frontier = next;
         depth += 1;
         if !res.violations.is_empty() && res.violation_count > 200 {
             res.cap_hit = Some("stopped after more than 200 violations".to_string());
             break;
         }
     }
-    let _ = probe_only_done;
+    res.machinery = machinery;
     // deepest history as a sample
     if let Some(last) = trail.iter().rposition(|l| !l.is_empty()) {
         if last > 0 {
@@ -993,6 +1063,7 @@ fn record(cfg: &HxCfg, res: &mut HxResult, hist: &[Op], op: Option<Op>, f: Findi
                 cap: cfg.cap,
                 history: hist.to_vec(),
                 at: if op.is_some() { "transition".to_string() } else { "probe".to_string() },
+                aux: f.aux,
             });
         }
     } else {
@@ -1006,14 +1077,17 @@ fn expand_state<const N: usize>(
     cfg: &HxCfg,
     ops: &[Op],
     seen: &FxHashSet<Box<[u8]>>,
-    st: &St<N>,
+    g0: &Sodg<N>,
+    m0: &Model,
     idx: u32,
     expand: bool,
     hist_ctx: (&Vec<Vec<Op>>, &Vec<Vec<(u32, Op)>>, usize),
-    out: &mut WorkerOut<N>,
+    out: &mut WorkerOut,
 ) {
-    let g0 = &st.g.0;
-    let m0 = &st.m;
+    crate::inflight::begin_case(|| {
+        let h = history_of(hist_ctx.0, hist_ctx.1, hist_ctx.2, idx);
+        crate::report::hx_case_json(cfg, &h, "probe", "crash-or-hang", "the engine did not survive this state: a probe or a transition from it crashed the process or did not return", None)
+    });
     // probes on the state itself
     {
         let hist = || history_of(hist_ctx.0, hist_ctx.1, hist_ctx.2, idx);
@@ -1070,6 +1144,6 @@ fn expand_state<const N: usize>(
         if seen.contains(&key) {
             continue;
         }
-        out.cands.push(Cand { key, parent: idx, op: *op, st: St { g: G(g1), m: m1 } });
+        out.cands.push(Cand { key, parent: idx, op: *op });
     }
 }
